@@ -821,3 +821,83 @@ func ifsOn(v ssa.Value) []struct {
 	visit(v, false)
 	return out
 }
+
+type ssaInstr = ssa.Instruction
+
+// flowsOnlyTo: every use of function value v (through cells, phis and closure captures inside root) is as an
+// argument of one of the sink functions. Returns a description of the first other use.
+func flowsOnlyTo(v ssa.Value, sinks []*ssa.Function, root *ssa.Function, seen map[ssa.Value]bool) string {
+	if seen[v] {
+		return ""
+	}
+	seen[v] = true
+	isSink := func(in ssa.Instruction) bool {
+		for _, s := range sinks {
+			if isCallTo(in, s) {
+				return true
+			}
+		}
+		return false
+	}
+	for _, u := range usesOf(v) {
+		switch x := u.(type) {
+		case *ssa.DebugRef:
+		case *ssa.Store:
+			if x.Val != v {
+				continue
+			}
+			// all loads of the cell (also through closures capturing it)
+			if bad := cellLoadsFlow(x.Addr, sinks, root, seen); bad != "" {
+				return bad
+			}
+		case *ssa.Phi:
+			if bad := flowsOnlyTo(x, sinks, root, seen); bad != "" {
+				return bad
+			}
+		case *ssa.MakeClosure:
+			// captured by value into a closure: follow the free variable
+			if f, ok := x.Fn.(*ssa.Function); ok {
+				for bi, b := range x.Bindings {
+					if b == v && bi < len(f.FreeVars) {
+						if bad := flowsOnlyTo(f.FreeVars[bi], sinks, root, seen); bad != "" {
+							return bad
+						}
+					}
+				}
+			}
+		case ssa.CallInstruction:
+			if !isSink(x) {
+				return "used by " + describeCallee(x)
+			}
+		default:
+			return "used by " + u.String()
+		}
+	}
+	return ""
+}
+
+func cellLoadsFlow(addr ssa.Value, sinks []*ssa.Function, root *ssa.Function, seen map[ssa.Value]bool) string {
+	if seen[addr] {
+		return ""
+	}
+	seen[addr] = true
+	for _, u := range usesOf(addr) {
+		switch x := u.(type) {
+		case *ssa.UnOp:
+			if bad := flowsOnlyTo(x, sinks, root, seen); bad != "" {
+				return bad
+			}
+		case *ssa.MakeClosure:
+			if f, ok := x.Fn.(*ssa.Function); ok {
+				for bi, b := range x.Bindings {
+					if b == addr && bi < len(f.FreeVars) {
+						if bad := cellLoadsFlow(f.FreeVars[bi], sinks, root, seen); bad != "" {
+							return bad
+						}
+					}
+				}
+			}
+		}
+	}
+	return ""
+}
